@@ -99,10 +99,11 @@ def wrap_container(arr, cont, name=None, index=None):
         return pa.array(arr)
     if isinstance(cont, (list, tuple)) and cont[0] == "pachunk":
         pos, chunks = 0, []
+        typ = pa.array(arr).type         # (a chunk of nulls alone would get the null type)
         for l in cont[1]:
-            chunks.append(pa.array(arr[pos:pos + l]))
+            chunks.append(pa.array(arr[pos:pos + l], type=typ))
             pos += l
-        return pa.chunked_array(chunks, type=chunks[0].type)
+        return pa.chunked_array(chunks, type=typ)
     if cont == "arrowseries":
         return pd.Series(pd.array(arr, dtype=pd.ArrowDtype(pa.array(arr).type)), name=name)
     if cont == "series_tz":          # the same instants, time zone aware (datetime embeddings only)
